@@ -541,7 +541,9 @@ ViolC11(g, prev, r, g2) ==
       sent == SendsK(r.out, {p.kind}) # <<>>
       onlyErrRel == \A i \in DOMAIN r.out : r.out[i].ev = "error" \/ (r.out[i].ev = "released" /\ r.out[i].id = p.pid)
   IN
-  IF Op(r) # "send" \/ r.panic \/ ~GateOnly(g, p) THEN {}
+  IF Op(r) = "probe"      \* compile-time table: checked_send accepts exactly what the run-time role check accepts
+  THEN (IF r.call.ok # RoleCanSend(r.call.role, p.kind, p.ver) THEN {"C11d-compile-time-table"} ELSE {})
+  ELSE IF Op(r) # "send" \/ r.panic \/ ~GateOnly(g, p) THEN {}
   ELSE
   (IF ~GateAllows(g, p) /\ sent THEN {"C11a-forbidden-packet-sent"} ELSE {})
   \cup (IF GateAllows(g, p) /\ g.conn = "connected" /\ ~sent THEN {"C11a-allowed-packet-not-sent"} ELSE {})
@@ -575,6 +577,10 @@ ViolC17(g, prev, r, g2) ==
            /\ ((p.kind = "connect" /\ g.conn # "disc") \/ (p.kind = "connack" /\ g.conn = "connected"))
            /\ ~(HasErrNamed(r.out, {"ProtocolError"}) /\ Recvs(r.out) = <<>> /\ sessionSame)
         THEN {"C17b-handshake-packet-on-established-connection"} ELSE {})
+  \* ... and a malformed one is not acted upon either: no CONNACK answers it, the session is untouched
+  \cup (IF g.ver # "undet" /\ p.bad # "" /\ p.kind = "connect" /\ g.conn = "connected" /\ PeerMaySend(g.role, g.ver, nib)
+           /\ ~(HasErr(r.out) /\ Recvs(r.out) = <<>> /\ sessionSame /\ SendsK(r.out, {"connack"}) = <<>>)
+        THEN {"C17b-malformed-connect-on-established-connection"} ELSE {})
   \cup (IF g.ver = "undet" /\ (p.kind # "connect" \/ p.ver \notin {"v311", "v50"})
            /\ ~(HasErr(r.out) /\ Recvs(r.out) = <<>> /\ r.obs.ver = "undet")
         THEN {"C17c-undetermined-accepts-other-first-packet"} ELSE {})
@@ -591,7 +597,7 @@ SameEvents(a, b) == NonRel(a) = NonRel(b) /\ RelSet(a) = RelSet(b)
 ViolC10(g, prev, r, g2) ==
   LET (* a new session has started on this connection, or this very call is the CONNECT that asks for one
          (compared even when the reused object refuses it) *)
-      fresh == r.shadow = "fresh" /\ (g2.newSess \/ ((IsSend(r, {"connect"}) \/ IsRecv(r, {"connect"})) /\ CP(r).clean))
+      fresh == r.shadow = "fresh" /\ (g2.newSess \/ ((IsSend(r, {"connect"}) \/ (IsRecv(r, {"connect"}) /\ r.call.flag)) /\ CP(r).clean))
   IN
   (IF fresh /\ ~r.panic /\ ~SameEvents(r.out, r.outF)
    THEN {"C10-reused-object-differs-from-fresh"} ELSE {})
